@@ -247,7 +247,11 @@ class DepSet(boolean.AndRestriction, caching=False):
 
     @property
     def has_conditionals(self):
-        return bool(self._node_conds)
+        if isinstance(self._node_conds, bool):
+            return self._node_conds
+        # node_conds was computed; it is empty when every conditional payload is
+        # also required unconditionally, which doesn't mean there are no conditionals
+        return bool(self._node_conds) or bool(self.known_conditionals)
 
     @property
     def known_conditionals(self):
